@@ -5,7 +5,7 @@ import hashlib, json, os, re, shutil, subprocess, sys, time
 from collections import namedtuple
 
 VERIF = os.path.dirname(os.path.dirname(os.path.abspath(__file__)))
-REPO = "/repo"
+REPO = os.environ.get("PV_REPO", "/repo")      # PV_REPO: run the checks against a scratch copy of the repository
 COQ = os.path.join(VERIF, "coq")
 BUILD = os.path.join(VERIF, "build")
 HARNESS = os.path.join(VERIF, "harness")
@@ -190,24 +190,38 @@ def sh(cmd, cwd=None, timeout=None, env=None, check=False, input=None):
 
 def coq_make(targets, timeout=1500):
     """full .vo build of the given targets (never -vos); returns (ok, output)"""
-    if not os.path.exists(os.path.join(COQ, "Makefile")) or os.path.getmtime(os.path.join(COQ, "Makefile")) < os.path.getmtime(os.path.join(COQ, "_CoqProject")):
-        sh("coq_makefile -f _CoqProject -o Makefile", cwd=COQ, check=True)
+    import mkproject
+    mkproject.main()
     rc, out = sh(["timeout", str(timeout), "make", "-j%d" % NPROC] + targets, cwd=COQ)
     return rc == 0, out
 
 
-def harness_build(features_default=True, timeout=1500):
-    """(re)builds the harness against /repo's current working tree with the hooks on"""
-    tdir = os.path.join(BUILD, "harness-target" if features_default else "harness-target-plain")
+def harness_build(features_default=True, timeout=1500, release=False):
+    """(re)builds the harness against the repository's current working tree with the hooks on.
+    With PV_REPO set to a scratch copy, a copy of the harness crate pointing at it is built in its own directories."""
+    suffix = "" if features_default else "-plain"
+    if release: suffix += "-release"
+    hdir = HARNESS
+    if REPO != "/repo":
+        tag = hashlib.sha1(REPO.encode()).hexdigest()[:10]
+        hdir = os.path.join(BUILD, "harness-src-" + tag)
+        if os.path.exists(hdir): shutil.rmtree(hdir)
+        shutil.copytree(HARNESS, hdir, ignore=shutil.ignore_patterns("target"))
+        ct = open(os.path.join(hdir, "Cargo.toml")).read().replace('path = "/repo"', 'path = "%s"' % REPO)
+        open(os.path.join(hdir, "Cargo.toml"), "w").write(ct)
+        suffix += "-" + tag
+    tdir = os.path.join(BUILD, "harness-target" + suffix)
     os.makedirs(tdir, exist_ok=True)
-    lock = os.path.join(HARNESS, "Cargo.lock")
+    lock = os.path.join(hdir, "Cargo.lock")
     if not os.path.exists(lock):
         shutil.copy(os.path.join(REPO, "Cargo.lock"), lock)
     cmd = ["timeout", str(timeout), "cargo", "build", "--offline", "--target-dir", tdir]
     if not features_default:
         cmd += ["--no-default-features"]
-    rc, out = sh(cmd, cwd=HARNESS, env={"RUSTFLAGS": "--cfg prometheus_verif"})
-    return rc == 0, out, os.path.join(tdir, "debug", "pv")
+    if release:
+        cmd += ["--release"]
+    rc, out = sh(cmd, cwd=hdir, env={"RUSTFLAGS": "--cfg prometheus_verif"})
+    return rc == 0, out, os.path.join(tdir, "release" if release else "debug", "pv")
 
 
 def run_harness(binpath, lines, timeout_ms=5000, wall=600):
